@@ -1,6 +1,6 @@
 """Contracts for antismash/common/secmet/locations.py (C04; used by C01, C03, C07, C09, C12)."""
 # pylint: disable=no-self-argument,no-method-argument,missing-function-docstring
-from pyvc.dsl import (contract, spec, Int, Bool, Opt, OneOf, Rec, ListOf, SeqOf, Const, Loop,
+from pyvc.dsl import (contract, spec, Int, Bool, Opt, OneOf, Rec, ListOf, SeqOf, Const, Loop, count,
                       implies, iff, forall, exists)
 
 FILE = "antismash/common/secmet/locations.py"
@@ -32,6 +32,13 @@ def wf(loc):
 @spec
 def share(a, b):
     return a.start < b.end and b.start < a.end
+
+
+@spec
+def disjoint(loc):
+    """no two parts share a base"""
+    n = len(loc.parts)
+    return all(not share(loc.parts[i], loc.parts[j]) for i in range(n) for j in range(n) if i < j)
 
 
 @spec
@@ -111,3 +118,311 @@ class DistanceSimple:
         return result == d_ring(first, second, wrap_point)
 
     returns = Int
+
+
+# ---- origin bridging ---------------------------------------------------------------------------------
+@spec
+def same_strand(loc):
+    return all(p.strand == loc.parts[0].strand for p in loc.parts)
+
+
+@spec
+def descends_somewhere(loc):
+    """some adjacent pair of parts has a decreasing start"""
+    return any(loc.parts[i].start > loc.parts[i + 1].start for i in range(len(loc.parts) - 1))
+
+
+@spec
+def ascends_somewhere(loc):
+    return any(loc.parts[i].start < loc.parts[i + 1].start for i in range(len(loc.parts) - 1))
+
+
+@spec
+def bridges_spec(loc):
+    """part starts are not monotone in the direction the strand demands (forward when unstranded)"""
+    if len(loc.parts) < 2:
+        return False
+    if same_strand(loc) and loc.parts[0].strand == -1:
+        return ascends_somewhere(loc)
+    return descends_somewhere(loc)
+
+
+@contract(f"{FILE}::location_bridges_origin", props=["C04", "C03", "C08", "C09"])
+class LocationBridgesOrigin:
+    params = {"location": LOC}
+
+    def requires(location):
+        return wf(location)
+
+    def ensures(location, result):
+        return result == bridges_spec(location)
+
+    functional = bridges_spec
+    returns = Bool
+
+
+@spec
+def first_break(loc):
+    """index of the first part that does not continue the strand's direction"""
+    if len(loc.parts) == 2:
+        return 1
+    if loc.parts[0].strand == -1:
+        return 1 if not loc.parts[1].start < loc.parts[0].start else 2
+    return 1 if not loc.parts[1].start > loc.parts[0].start else 2
+
+
+@spec
+def monotone(parts, strand):
+    if strand == -1:
+        return all(parts[i].start >= parts[i + 1].start for i in range(len(parts) - 1))
+    return all(parts[i].start <= parts[i + 1].start for i in range(len(parts) - 1))
+
+
+@spec
+def hull_start(parts):
+    return min(p.start for p in parts)
+
+
+@spec
+def hull_end(parts):
+    return max(p.end for p in parts)
+
+
+@contract(f"{FILE}::split_origin_bridging_location", props=["C04", "C03", "C08"])
+class SplitOriginBridging:
+    """Compound locations of one strand whose parts bridge the origin exactly once."""
+    params = {"location": CL(2, 3)}
+    modules = ["antismash/common/secmet/locations.py"]
+
+    def requires(location):
+        return wf(location) and same_strand(location) and bridges_spec(location)
+
+    def _raises_value_error(location):
+        return not split_valid(location)
+
+    raises = {"ValueError": _raises_value_error}
+
+    def ensures(location, result):
+        k = first_break(location)
+        head = location.parts[:k]
+        tail = location.parts[k:]
+        lower = result[0]
+        upper = result[1]
+        if location.parts[0].strand == -1:
+            return parts_equal(lower, head) and parts_equal(upper, tail)
+        return parts_equal(upper, head) and parts_equal(lower, tail)
+
+
+@spec
+def parts_equal(xs, ys):
+    return len(xs) == len(ys) and all(
+        xs[i].start == ys[i].start and xs[i].end == ys[i].end and xs[i].strand == ys[i].strand
+        for i in range(min(len(xs), len(ys))))
+
+
+@spec
+def split_valid(location):
+    """the two sections cover disjoint hull spans and each is ordered for the strand"""
+    k = first_break(location)
+    head = location.parts[:k]
+    tail = location.parts[k:]
+    strand = location.parts[0].strand
+    disjoint = not (hull_start(head) < hull_end(tail) and hull_start(tail) < hull_end(head))
+    return disjoint and monotone(head, strand) and monotone(tail, strand)
+
+
+# ---- connect (linear), reduce, forwards, exons ---------------------------------------------------------
+@spec
+def covers(loc, x):
+    """base x belongs to the location"""
+    return any(p.start <= x and x < p.end for p in loc.parts)
+
+
+@spec
+def loc_min(loc):
+    return min(p.start for p in loc.parts)
+
+
+@spec
+def loc_max(loc):
+    return max(p.end for p in loc.parts)
+
+
+@spec
+def simple(loc):
+    return len(loc.parts) == 1
+
+
+LOCS = ListOf(LOC, 1, 2)
+
+
+@contract(f"{FILE}::connect_locations", props=["C04", "C05", "C06"])
+class ConnectLinear:
+    """wrap_point=None: the exact hull on a line; raises iff an input bridges the origin."""
+    name = "ConnectLinear"
+    params = {"locations": LOCS, "wrap_point": Const(None)}
+
+    def requires(locations):
+        return all(wf(loc) and (simple(loc) or same_strand(loc)) for loc in locations)
+
+    def _raises(locations):
+        return any(bridges_spec(loc) for loc in locations)
+
+    raises = {"ValueError": _raises}
+
+    def ensures(locations, result):
+        lo = min(loc_min(loc) for loc in locations)
+        hi = max(loc_max(loc) for loc in locations)
+        s0 = locations[0].parts[0].strand
+        same = all(loc.parts[0].strand == s0 for loc in locations)
+        return (simple(result) and result.start == lo and result.end == hi
+                and implies(same, result.strand == s0) and implies(not same, result.strand is None))
+
+
+@contract(f"{FILE}::make_forwards", props=["C04"])
+class MakeForwards:
+    params = {"location": LOC}
+
+    def requires(location):
+        return wf(location) and same_strand(location)
+
+    def ensures(location, result):
+        n = len(location.parts)
+        rev = location.parts[0].strand == -1
+        return (len(result.parts) == n
+                and all(result.parts[i].strand == 1 for i in range(n))
+                and all(result.parts[i].start == location.parts[n - 1 - i if rev else i].start
+                        and result.parts[i].end == location.parts[n - 1 - i if rev else i].end for i in range(n)))
+
+
+@contract(f"{FILE}::location_contains_overlapping_exons", props=["C04"])
+class OverlappingExons:
+    params = {"location": LOC}
+
+    def requires(location):
+        return wf(location)
+
+    def ensures(location, result):
+        n = len(location.parts)
+        return result == any(location.parts[i].end == location.parts[j].end
+                             for i in range(n) for j in range(n) if i < j)
+
+
+@contract(f"{FILE}::remove_redundant_exons", props=["C04"])
+class RemoveRedundantExons:
+    params = {"location": LOC}
+
+    def requires(location):
+        n = len(location.parts)
+        return wf(location) and all(not parts_equal([location.parts[i]], [location.parts[j]])
+                                    for i in range(n) for j in range(n) if i < j)
+
+    def ensures(location, result):
+        # same bases; no kept part lies inside another kept part; kept parts are input parts in order
+        n = len(result.parts)
+        return (forall(range(0, loc_max(location) + 1), lambda x: covers(result, x) == covers(location, x))
+                and all(not inside(result.parts[i], result.parts[j]) for i in range(n) for j in range(n) if i != j)
+                and all(any(parts_equal([r], [p]) for p in location.parts) for r in result.parts))
+
+
+@contract(f"{FILE}::build_location_from_others", props=["C04"])
+class BuildLocationFromOthers:
+    """simple inputs: concatenation merging exactly the touching boundaries"""
+    params = {"locations": ListOf(FL, 1, 3)}
+
+    def requires(locations):
+        # call sites pass consecutive, ascending, non-overlapping pieces
+        return (all(wf(loc) for loc in locations)
+                and all(locations[i].end <= locations[i + 1].start for i in range(len(locations) - 1)))
+
+    def ensures(locations, result):
+        touching = count(range(len(locations) - 1), lambda i: locations[i + 1].start == locations[i].end)
+        return (len(result.parts) == len(locations) - touching
+                and result.parts[0].start == locations[0].start
+                and result.parts[len(result.parts) - 1].end == locations[len(locations) - 1].end
+                and forall(range(0, max(loc.end for loc in locations) + 1),
+                           lambda x: covers(result, x) == any(covers(loc, x) for loc in locations)))
+
+
+# ---- frameshift ------------------------------------------------------------------------------------------
+@contract(f"{FILE}::_adjust_location_by_offset", props=["C04", "C09", "C10"])
+class AdjustLocationByOffset:
+    params = {"location": LOC, "offset": Int}
+
+    def requires(location, offset):
+        return (wf(location) and same_strand(location) and -2 <= offset and offset <= 2
+                and (simple(location) or not bridges_spec(location)) and disjoint(location)
+                and all(p.end - p.start > 2 for p in location.parts))
+
+    def ensures(location, offset, result):
+        n = len(location.parts)
+        rev = location.parts[0].strand == -1
+        first = result.parts[0]
+        orig = location.parts[0]
+        return (len(result.parts) == n
+                and all(parts_equal([result.parts[i]], [location.parts[i]]) for i in range(1, n))
+                and first.strand == orig.strand
+                and (first.start == orig.start and first.end == orig.end + offset if rev
+                     else first.start == orig.start + offset and first.end == orig.end))
+
+
+# ---- offset ------------------------------------------------------------------------------------------------
+@spec
+def rot(x, offset, wrap):
+    """(x + offset) mod wrap for -wrap < offset < wrap and 0 <= x < wrap, without nonlinear terms"""
+    y = x + offset
+    if y >= wrap:
+        return y - wrap
+    if y < 0:
+        return y + wrap
+    return y
+
+
+@spec
+def total_len(loc):
+    return sum(p.end - p.start for p in loc.parts)
+
+
+@spec
+def within(loc, limit):
+    return all(0 <= p.start and p.start < p.end and p.end <= limit for p in loc.parts)
+
+
+@spec
+def lands_on_wrap(location, offset, wrap_point):
+    """some shifted part ends exactly on (a multiple of) the wrap point"""
+    return any(p.end + offset == 0 or p.end + offset == wrap_point for p in location.parts)
+
+
+@contract(f"{FILE}::offset_location", props=["C04", "C12"])
+class OffsetLocationRing:
+    params = {"location": OneOf(FL, CL(2, 2)), "offset": Int, "wrap_point": Int}
+
+    def requires(location, offset, wrap_point):
+        return (wrap_point > 0 and within(location, wrap_point) and disjoint(location) and same_strand(location)
+                and -wrap_point < offset and offset < wrap_point)
+
+    ensures = {
+        "same-bases-rotated": lambda location, offset, wrap_point, result:
+            forall(range(0, wrap_point), lambda x: covers(result, rot(x, offset, wrap_point)) == covers(location, x)),
+        "length-strand-wf": lambda location, offset, wrap_point, result:
+            total_len(result) == total_len(location) and within(result, wrap_point) and disjoint(result)
+            and all(p.strand == location.parts[0].strand for p in result.parts),
+    }
+    known = {"C04-F1": lands_on_wrap}
+
+
+@contract(f"{FILE}::offset_location", props=["C04", "C12"])
+class OffsetLocationLine:
+    variant = True
+    params = {"location": OneOf(FL, CL(2, 3)), "offset": Int, "wrap_point": Const(None)}
+
+    def requires(location, offset):
+        return wf(location) and all(p.start + offset >= 0 for p in location.parts)
+
+    def ensures(location, offset, result):
+        n = len(location.parts)
+        return (len(result.parts) == n and all(
+            result.parts[i].start == location.parts[i].start + offset
+            and result.parts[i].end == location.parts[i].end + offset
+            and result.parts[i].strand == location.parts[i].strand for i in range(n)))
